@@ -9,6 +9,7 @@ import (
 
 	"verif/mc"
 
+	"github.com/buildbarn/bb-remote-execution/pkg/builder"
 	"github.com/buildbarn/bb-remote-execution/pkg/filesystem/virtual"
 	"github.com/buildbarn/bb-storage/pkg/digest"
 	"google.golang.org/grpc/codes"
@@ -25,6 +26,9 @@ type world struct {
 	cas  *fakeCAS
 	log  *recordingErrorLogger
 	leaf virtual.LinkableLeaf
+	// bd: uploads of the reuploader threads go through this real virtual
+	// build directory (nil unless worldCfg.viaDirectory).
+	bd builder.BuildDirectory
 
 	delay chan struct{}
 	fired bool
@@ -37,6 +41,10 @@ type world struct {
 	// references that may or may not exist (acquire, release or upload
 	// in progress).
 	held, pending int
+	// entries counts the directory entries whose removal has not begun
+	// (so that certainly exist); only maintained by the hard-link
+	// scenarios.
+	entries int
 	// uploadsLeft is the number of uploads that have not returned yet.
 	uploadsLeft int
 	// writerDone is set when the writer thread has given up or closed.
@@ -99,12 +107,23 @@ type worldCfg struct {
 	heldWriter bool
 	// let the fake CAS fail a Put (one deviation).
 	casMayFail bool
+	// extraLinks: number of additional hard links created during Build.
+	extraLinks int
+	// heldReader: keep a read descriptor open from Build on.
+	heldReader bool
+	// viaDirectory: the file is the entry of a real in-memory directory
+	// wrapped in a real virtual build directory (part 4, dir_test.go).
+	viaDirectory bool
 }
 
 func newWorld(x *mc.X, cfg worldCfg) *world {
 	w := &world{x: x, log: &recordingErrorLogger{}, cas: &fakeCAS{}, delay: make(chan struct{}), expect: map[string][]byte{}, casFailed: map[string]bool{}, startVersion: map[string]int{}}
 	w.pool = &fakePool{fail: w.fail}
-	w.leaf = newLeaf(w.pool, w.log, cfg.nfs, 0)
+	if cfg.viaDirectory {
+		w.leaf, w.bd = newDirFile(w.pool, w.log, cfg.nfs, 0, w.cas)
+	} else {
+		w.leaf = newLeaf(w.pool, w.log, cfg.nfs, 0)
+	}
 	w.held = 1 // the directory entry
 
 	// Initial contents, written through a descriptor that is closed again.
@@ -126,9 +145,24 @@ func newWorld(x *mc.X, cfg worldCfg) *world {
 	if cfg.cached {
 		// With a descriptor still open for writing the upload gives up
 		// waiting at once (the delay passed here has expired already).
-		if _, err := uploadFile(w.leaf, w.cas, sha256Fn, closedChannel); err != nil {
+		if _, err := uploadVia(w.bd, w.leaf, w.cas, sha256Fn, closedChannel); err != nil {
 			panic(err)
 		}
+	}
+
+	w.entries = 1
+	for i := 0; i < cfg.extraLinks; i++ {
+		if s := w.leaf.Link(); s != virtual.StatusOK {
+			panic("cannot link")
+		}
+		w.held++
+		w.entries++
+	}
+	if cfg.heldReader {
+		if s := w.leaf.VirtualOpenSelf(ctx, virtual.ShareMaskRead, &virtual.OpenExistingOptions{}, 0, &attr); s != virtual.StatusOK {
+			panic("cannot open for reading")
+		}
+		w.held++
 	}
 
 	w.cas.who = w.me
@@ -145,8 +179,11 @@ func newWorld(x *mc.X, cfg worldCfg) *world {
 		if w.oracles() {
 			// The caller holds a frozen descriptor: what it is
 			// going to send are the contents at the freeze instant.
+			// (The dump is taken outside w.mu: reading the FUSE link count
+			// is a scheduling point when its atomics are shimmed.)
+			d, _ := virtual.VerifFilesDump(w.leaf)
 			w.mu.Lock()
-			if d, _ := virtual.VerifFilesDump(w.leaf); d.FrozenDescriptorsCount > 0 {
+			if d.FrozenDescriptorsCount > 0 {
 				w.expect[who] = append([]byte(nil), w.snap...)
 			} else {
 				w.expect[who] = append([]byte(nil), w.pf().data...)
@@ -246,11 +283,11 @@ func (w *world) key() string {
 	w.mu.Lock()
 	defer w.mu.Unlock()
 	var b strings.Builder
-	fmt.Fprintf(&b, "impl{rc=%d w=%d fz=%d nil=%v size=%d nmw=%v ufw=%v cached=%s hl=%d} pool{closed=%d uac=%d v=%d data=%q} env{fired=%v} model{held=%d pend=%d up=%d want=%q pf=%d snap=%q/%d}",
+	fmt.Fprintf(&b, "impl{rc=%d w=%d fz=%d nil=%v size=%d nmw=%v ufw=%v cached=%s hl=%d} pool{closed=%d uac=%d v=%d data=%q} env{fired=%v} model{held=%d pend=%d ent=%d up=%d want=%q pf=%d snap=%q/%d}",
 		d.ReferenceCount, d.WritableDescriptorsCount, d.FrozenDescriptorsCount, d.FileIsNil, d.Size,
 		d.NoMoreWritersWakeupSet, d.UnfreezeWakeupSet, cached, d.HandleLinkCount,
 		pf.closed, pf.usesAfterClose, pf.version(), pf.data, w.fired,
-		w.held, w.pending, w.uploadsLeft, w.want, w.prevFrozen, w.snap, w.snapVersion)
+		w.held, w.pending, w.entries, w.uploadsLeft, w.want, w.prevFrozen, w.snap, w.snapVersion)
 	// The order of Puts and results does not influence anything later.
 	var tail []string
 	w.cas.mu.Lock()
@@ -464,6 +501,75 @@ func (w *world) unlinker() {
 	})
 }
 
+// entryRemover removes one of the directory entries (hard links) of the file.
+func (w *world) entryRemover(name string) {
+	w.x.Go(name, func() {
+		w.mu.Lock()
+		w.entries--
+		w.mu.Unlock()
+		w.releaseBegin()
+		w.leaf.Unlink()
+		w.x.CheckNoLocksHeld("Unlink")
+		w.releaseEnd()
+		w.result("%s=unlinked", name)
+	})
+}
+
+// relinker tries to create one more directory entry while the others are
+// being removed, and removes it again if that worked. Link may only refuse
+// if the link count was zero at some instant of the call, i.e. if the removal
+// of every entry had at least begun when it returned.
+func (w *world) relinker() {
+	w.x.Go("K", func() {
+		x := w.x
+		w.acquireBegin()
+		s := w.leaf.Link()
+		x.CheckNoLocksHeld("Link")
+		w.mu.Lock()
+		certain := w.entries
+		if s == virtual.StatusOK {
+			w.entries++
+		}
+		w.mu.Unlock()
+		w.acquireEnd(s == virtual.StatusOK)
+		if s != virtual.StatusOK {
+			if certain > 0 {
+				w.fail("link-failed", "Link returned status %d although %d directory entr(y/ies) of the file existed during the whole call", s, certain)
+			}
+			w.result("K=refused")
+			return
+		}
+		x.ResetLocal("K:linked")
+		w.mu.Lock()
+		w.entries--
+		w.mu.Unlock()
+		w.releaseBegin()
+		w.leaf.Unlink()
+		x.CheckNoLocksHeld("Unlink")
+		w.releaseEnd()
+		w.result("K=linked+unlinked")
+	})
+}
+
+// readerCloser closes the read descriptor that Build left open, after
+// reading through it (the storage must still be there).
+func (w *world) readerCloser() {
+	w.x.Go("C", func() {
+		buf := make([]byte, 8)
+		n, _, s := w.leaf.VirtualRead(ctx, buf, 0)
+		w.x.CheckNoLocksHeld("VirtualRead")
+		if s != virtual.StatusOK || !bytes.Equal(buf[:n], w.want) {
+			w.fail("read-through-descriptor", "VirtualRead through an open descriptor returned %q status %d, the file contains %q", buf[:n], s, w.want)
+		}
+		w.x.ResetLocal("C:read")
+		w.releaseBegin()
+		w.leaf.VirtualClose(virtual.ShareMaskRead)
+		w.x.CheckNoLocksHeld("VirtualClose")
+		w.releaseEnd()
+		w.result("C=closed")
+	})
+}
+
 // linker creates a second directory entry and then removes both.
 func (w *world) linker() {
 	w.x.Go("K", func() {
@@ -530,6 +636,13 @@ func concScenario(name string, cfg worldCfg, shards int, spawn func(w *world)) *
 	}
 }
 
+// linkScenario: all interleavings (unbounded, state pruned) in both tiers.
+func linkScenario(name string, cfg worldCfg, spawn func(w *world)) *mc.Scenario {
+	sc := concScenario(name, cfg, 0, spawn)
+	sc.Bounds = map[string]int{"quick": -1, "thorough": -1}
+	return sc
+}
+
 func scenarios() []*mc.Scenario {
 	var r []*mc.Scenario
 	for _, nfs := range []bool{false, true} {
@@ -577,5 +690,33 @@ func scenarios() []*mc.Scenario {
 		w.writer(true, false, mutWrite)
 		w.uploader("U")
 	}))
+	// Hard links removed concurrently while a descriptor is open: the
+	// handle allocator in front of the file must forward exactly ONE Unlink
+	// (for the removal that takes the link count to zero) to the file, or
+	// the file loses a reference that a descriptor still relies on.
+	for _, nfs := range []bool{true, false} {
+		suffix := map[bool]string{false: "fuse", true: "nfs"}[nfs]
+		// Both entries and the descriptor go away: released exactly once,
+		// exactly with the last of the three.
+		r = append(r, linkScenario("unlink-unlink-close/"+suffix, worldCfg{nfs: nfs, initial: "ab", extraLinks: 1, heldReader: true}, func(w *world) {
+			w.entryRemover("L1")
+			w.entryRemover("L2")
+			w.readerCloser()
+		}))
+		// The descriptor stays: the storage must survive both removals
+		// and a racing Link (which may be refused once no entry is left).
+		r = append(r, linkScenario("unlink-unlink-link/"+suffix, worldCfg{nfs: nfs, initial: "ab", extraLinks: 1, heldReader: true}, func(w *world) {
+			w.entryRemover("L1")
+			w.entryRemover("L2")
+			w.relinker()
+		}))
+		// Three entries, three concurrent removals, descriptor stays.
+		r = append(r, linkScenario("unlink-x3/"+suffix, worldCfg{nfs: nfs, initial: "ab", extraLinks: 2, heldReader: true}, func(w *world) {
+			w.entryRemover("L1")
+			w.entryRemover("L2")
+			w.entryRemover("L3")
+		}))
+	}
+	r = append(r, dirScenarios()...)
 	return append(r, reachScenarios()...)
 }
